@@ -34,7 +34,7 @@ def run(ctx):
     rm = prog.calls_matching_all(re.compile(r'(tokio|std)::fs::(remove_dir_all|remove_dir|remove_file)$'))
     ctx.floor(R1, len(rm), 2, 'directory/file removal call sites')
     for c in rm:
-        ok = c.body.root in (SEC + 'version_manager::VersionManager::do_vacuum', BOOT)
+        ok = prog.owned_by(c.body.root, {SEC + 'version_manager::VersionManager::do_vacuum', BOOT})
         ctx.ob(R1, f'who:{c.body.root}→{(c.fn or "").rsplit("::", 1)[-1]}', ok,
                f'`{c.fn}` called from {c.body.name}' + ('' if ok else ': storage files may only be unlinked by vacuum/bootstrap'),
                [site(c.body, c.bb)])
@@ -154,6 +154,14 @@ def run(ctx):
                             fed = True
                 if direct and not users:
                     fed = True
+                # .. or is captured by a closure that makes the comparison (`.filter(|(e, _)| can_apply(**e, vacuum_epoch))`)
+                for bb_, st in g.stmts():
+                    rv = st.get('rv', {})
+                    if rv.get('rv') == 'agg' and rv.get('kind') in ('closure', 'coroutine') and rv.get('def') in prog.bodies:
+                        ch = prog.bodies[rv['def']]
+                        compares = ch.name in cmp_bodies or any(n in cmp_bodies for x in ch.calls for n in prog.callee_bodies(x))
+                        if compares and any(o['k'] != 'const' and c.dest['l'] in origin_locals(g, o['pl']['l']) for o in rv.get('ops', [])):
+                            fed = True
                 ctx.ob(R3, 'find_vacuum·horizon-feeds-comparison', fed,
                        f'the minimum of the pins must be an operand of the epoch comparison ({len(users)} comparison call(s) examined)',
                        [site(g, c.bb)])
@@ -162,7 +170,7 @@ def run(ctx):
 
     R4 = 'C08-R4'
     ctx.rule(R4, 'publish after persist (same instance as C04-R1g): status/epoch are updated only after Manifest::append')
-    b = prog.body(CCWCM)
+    b = prog.inlined(CCWCM)
     if ctx.anchor(R4, CCWCM, b is not None):
         ctx.functions_analysed.add(b.name)
         A = set(done_sites(prog, b, 'Manifest::append'))
@@ -185,7 +193,7 @@ def run(ctx):
                      'pinned at the previous epoch still lists them, and vacuum frees entries with key <= min pinned epoch')
         ins = []
         for c in b.calls:
-            if re.search(r'HashMap::<.*>::insert$', c.name or '') and c.args and c.args[0]['k'] != 'const':
+            if re.search(r'(Hash|BTree)Map::<.*>::insert$', c.name or '') and c.args and c.args[0]['k'] != 'const':
                 # receiver derives from &mut inner.rowset_deletion_to_apply
                 def is_rdta(kind, payload, bb_):
                     return kind == 'assign' and payload.get('rv') == 'ref' and \
@@ -271,7 +279,7 @@ def pools_shrink_only_in_vacuum(ctx, prog, R6):
     n_rm = 0
     for bd in prog.bodies.values():
         for c in bd.calls:
-            if not re.search(r'HashMap::<.*>::(remove|remove_entry|retain|clear|drain)$', c.name or ''):
+            if not re.search(r'(Hash|BTree)Map::<.*>::(remove|remove_entry|retain|clear|drain|pop_first|pop_last|split_off)$', c.name or ''):
                 continue
             if not (c.args and c.args[0]['k'] != 'const'):
                 continue
